@@ -103,7 +103,10 @@ def tlc(module, constants=None, cfg_body=None, out=None, workers=8, timeout=1500
         if constants:
             f.write('CONSTANTS\n')
             for k, v in constants.items():
-                f.write('  %s = %s\n' % (k, v))
+                if isinstance(v, str) and v.startswith('<-'):
+                    f.write('  %s %s\n' % (k, v))
+                else:
+                    f.write('  %s = %s\n' % (k, v))
         f.write(cfg_body.strip() + '\n')
         if 'CHECK_DEADLOCK' not in cfg_body:
             f.write('CHECK_DEADLOCK FALSE\n')
